@@ -224,9 +224,15 @@ func gen(r *sim.Rng, tier string) *sim.Case {
 			op.K = edge()
 		case "Range", "All":
 			op.D = r.Pick(3, 1, 1, 1) // stop after D callbacks (0 = never)
+			if r.Pct(15) {
+				op.D = r.N(dom + 1)
+			}
 		case "RangeWithStart":
 			op.K = edge()
 			op.D = r.Pick(3, 1, 1, 1)
+			if r.Pct(15) {
+				op.D = r.N(dom + 1)
+			}
 		case "RangeWithRange":
 			op.K = edge()
 			op.Ks = []int{edge()}
